@@ -392,6 +392,9 @@ def check(rep):
         else:
             rep.spurious += 1
             rep.inconc(f"{f['clause']}: model did not reproduce: {w}")
+    from vf.harness import c02
+
+    c02.fold_into_c03(rep)
     for t in REGRESSION_TEXTS:
         rep.replays += 1
         bad, got = text_oracle(t)
